@@ -56,7 +56,11 @@ def mkform():
         d = choose(4, 'dir')
         dname = None
         if d == 1: dname = 'SKIP'; line = line + ' # ' + casevar('skip', 'cs') + sym_str(choose(2, 'skl'), 'sk', alphabet='xy')
-        elif d == 2: dname = 'TODO'; line = line + ' # ' + casevar('todo', 'ct')
+        elif d == 2:
+            # TODO is a directive only as a whole word: '# TODO', '# todo: x', '# TODO x' - but '# TODOs left' or '# todo_list' is a plain comment
+            tail = sym_str(choose(3, 'tdl'), 'td', alphabet='s_ :')
+            line = line + ' # ' + casevar('todo', 'ct') + tail
+            dname = 'TODO' if (len(tail) == 0 or decide(c_in(chars_of(tail)[0], ' :'))) else None
         elif d == 3: line = line + ' # ' + sym_str(2, 'dj', alphabet='xy')
         return ('test', ok, num, name, dname), line
     if k == 1:
